@@ -65,6 +65,7 @@ class Module:
         self.classes = {}
         self.imports = {}     # local alias -> ('module', dotted) | ('symbol', module, name)
         self.assigns = {}     # module-level name -> value expression (last)
+        self.global_edits = {}  # module-level name -> statements that edit the object after its assignment (X[k] = v, X.update(..), X.append(..))
         self.package = name.rsplit('.', 1)[0] if not path.endswith('__init__.py') else name
         self._index()
 
@@ -98,6 +99,12 @@ class Module:
             for t in st.targets:
                 if isinstance(t, ast.Name):
                     self.assigns[t.id] = st.value
+                    self.global_edits.pop(t.id, None)
+                elif isinstance(t, ast.Subscript) and isinstance(t.value, ast.Name) and t.value.id in self.assigns:
+                    self.global_edits.setdefault(t.value.id, []).append(st)
+        elif isinstance(st, ast.Expr) and isinstance(st.value, ast.Call) and isinstance(st.value.func, ast.Attribute) and isinstance(st.value.func.value, ast.Name) \
+                and st.value.func.value.id in self.assigns and st.value.func.attr in ('update', 'append', 'extend', 'setdefault', 'insert'):
+            self.global_edits.setdefault(st.value.func.value.id, []).append(st)
         elif isinstance(st, (ast.If, ast.Try)):
             for b in st.body:
                 self._index_stmt(b)
